@@ -36,7 +36,7 @@ def core (s : St) : Core := ⟨s.waiter, s.hpc, s.spc, s.messages⟩
 macro "frame" : tactic =>
   `(tactic| ((try simp only []); (repeat' split) <;> (first | rfl | (simp; done) | (simp; rfl) | (simp_all; done))))
 
-@[simp] theorem core_wakeP (s : St) (i) : core (wakeP s i) = core s := by
+@[simp] theorem core_wakeP (s : St) (i b) : core (wakeP s i b) = core s := by
   unfold wakeP; frame
 
 @[simp] theorem core_protoResumeNoParse (s : St) : core (protoResumeNoParse s) = core s := by
@@ -687,7 +687,7 @@ theorem QInv.of_q4 {s s' : St} (h : q4 s' = q4 s) (hq : QInv s) : QInv s' := by
 
 @[simp] theorem q4_setP (s : St) (i p) : q4 (setP s i p) = q4 s := rfl
 @[simp] theorem q4_pushCb (s : St) (c) : q4 (pushCb s c) = q4 s := rfl
-@[simp] theorem q4_wakeP (s : St) (i) : q4 (wakeP s i) = q4 s := by unfold wakeP; frame
+@[simp] theorem q4_wakeP (s : St) (i b) : q4 (wakeP s i b) = q4 s := by unfold wakeP; frame
 @[simp] theorem q4_protoResumeNoParse (s : St) : q4 (protoResumeNoParse s) = q4 s := by
   unfold protoResumeNoParse; frame
 @[simp] theorem q4_payloadEvent (s : St) (i c e x) : q4 (payloadEvent s i c e x) = q4 s := by
